@@ -520,10 +520,12 @@ pub fn run_c16(seed: u64, run: u64, stats: &mut Stats) -> Vec<Violation> {
                     Err(f) => report!(mk(plan), f),
                 }
             }
+            let lim_chunkings = if sweep_chunkings[0] == Chunking::Whole { vec![Chunking::Whole] } else { vec![Chunking::Whole, sweep_chunkings[0]] };
+            for lc in lim_chunkings {
             for j in 0..24usize {
                 for f in [HardFault::Error, HardFault::Zero] {
                     let plan = ReaderPlan {
-                        chunking: sweep_chunkings[0],
+                        chunking: lc,
                         fault: Some((j, f)),
                         token: mix(&[vseed, j as u64]) >> 8,
                         inspect: false,
@@ -531,6 +533,7 @@ pub fn run_c16(seed: u64, run: u64, stats: &mut Stats) -> Vec<Violation> {
                     l.exec += 1;
                     match traced(|| mk(plan.clone()), || check_limited(data_len, limit, &ops, &plan)) {
                         Ok(o) => {
+                            stats.add("c16.limited.continued_after_one_shot_error", o.continued_after_error as u64);
                             if o.fault_fired {
                                 match f {
                                     HardFault::Error => l.err_fired += 1,
@@ -542,6 +545,7 @@ pub fn run_c16(seed: u64, run: u64, stats: &mut Stats) -> Vec<Violation> {
                         Err(fl) => report!(mk(plan), fl),
                     }
                 }
+            }
             }
             if run % 41 == 0 {
                 stats.sample(mk(ReaderPlan::clean(Chunking::Whole)).to_json());
@@ -605,6 +609,14 @@ pub fn gen_reader_input(kind: RKind, g: &mut Rng, size: u32, cfg: &mut Rng) -> (
                 }
             }
         }
+        RKind::V6SkipAllExts | RKind::V6Exts | RKind::V6ExtsLimited if g.chance(1, 3) => {
+            // hand-encoded chain in arbitrary (also non-canonical) order:
+            // repeated headers, AH in front of a fragment header, a second
+            // routing header, hop-by-hop in the middle, mobility/HIP/shim6
+            let (first, bytes) = gen_raw_chain(g, size, kind == RKind::V6SkipAllExts);
+            ip_number = first;
+            bytes
+        }
         RKind::V6SkipAllExts | RKind::V6Exts | RKind::V6ExtsLimited => {
             let last = if g.chance(1, 6) {
                 // chain that runs into another extension header
@@ -634,6 +646,21 @@ pub fn gen_reader_input(kind: RKind, g: &mut Rng, size: u32, cfg: &mut Rng) -> (
         }
         RKind::Frag | RKind::FragLimited => encode(WKind::Frag, &gen_value(WKind::Frag, g, size)),
         RKind::Ip => {
+            if g.chance(1, 5) {
+                // IPv6 header followed by a hand-encoded chain
+                let (first, chain) = gen_raw_chain(g, size.min(2), false);
+                let mut h6 = gen_v6(g);
+                h6.next_header = etherparse::IpNumber(first);
+                h6.payload_length = match g.below(6) {
+                    0 => g.usize_range(0, chain.len()) as u16,
+                    1 => chain.len() as u16,
+                    _ => (chain.len() + g.usize_range(0, 32)) as u16,
+                };
+                let mut out = Vec::new();
+                let _ = h6.write(&mut out);
+                out.extend_from_slice(&chain);
+                return finish_reader_input(kind, ip_number, out, g, cfg);
+            }
             let mut h = gen_ip_headers(g, size.min(2));
             // announced length close to the header chain (sometimes below it)
             match &mut h {
@@ -676,6 +703,70 @@ pub fn gen_reader_input(kind: RKind, g: &mut Rng, size: u32, cfg: &mut Rng) -> (
         RKind::Icmp4 => encode(WKind::Icmp4, &gen_value(WKind::Icmp4, g, size)),
         RKind::Icmp6 => encode(WKind::Icmp6, &gen_value(WKind::Icmp6, g, size)),
     };
+    finish_reader_input(kind, ip_number, bytes, g, cfg)
+}
+
+/// Extension header chain encoded by hand: 1..=7 headers in arbitrary order.
+/// Returns the first header's ip number and the bytes.
+fn gen_raw_chain(g: &mut Rng, size: u32, with_skippable_only_kinds: bool) -> (u8, Vec<u8>) {
+    let n = g.usize_range(1, 7);
+    let mut kinds: Vec<u8> = Vec::new();
+    for i in 0..n {
+        let pool: &[u8] = if with_skippable_only_kinds {
+            &[0, 43, 44, 51, 60, 60, 43, 135, 139, 140]
+        } else {
+            &[0, 43, 44, 51, 60, 60, 43, 51, 44]
+        };
+        let mut k = *g.pick(pool);
+        // hop-by-hop mostly (not always) only at the start
+        if k == 0 && i > 0 && !g.chance(1, 4) {
+            k = 60;
+        }
+        kinds.push(k);
+    }
+    let last = if g.chance(1, 5) { *g.pick(&[0u8, 43, 44, 51, 60]) } else { gen_ip_number_non_ext(g).0 };
+    let mut out = Vec::new();
+    for (i, k) in kinds.iter().enumerate() {
+        let next = kinds.get(i + 1).copied().unwrap_or(last);
+        match k {
+            44 => {
+                out.push(next);
+                out.push(g.u8());
+                out.extend_from_slice(&g.u16().to_be_bytes());
+                out.extend_from_slice(&g.u32().to_be_bytes());
+            }
+            51 => {
+                let words = match size {
+                    0 => 0,
+                    1 => g.usize_range(0, 2),
+                    _ => g.usize_range(0, 12),
+                };
+                out.push(next);
+                out.push((words + 1) as u8);
+                out.extend_from_slice(&g.bytes(2 + 8 + words * 4));
+            }
+            _ => {
+                let units = match size {
+                    0 => 0,
+                    1 => g.usize_range(0, 1),
+                    _ => g.usize_range(0, 6),
+                };
+                out.push(next);
+                out.push(units as u8);
+                out.extend_from_slice(&g.bytes(6 + units * 8));
+            }
+        }
+    }
+    (kinds[0], out)
+}
+
+fn finish_reader_input(
+    kind: RKind,
+    ip_number: u8,
+    mut bytes: Vec<u8>,
+    g: &mut Rng,
+    cfg: &mut Rng,
+) -> (ROp, Vec<u8>) {
     let header_len = bytes.len();
     let filler = match cfg.below(4) {
         0 => 0,
@@ -762,6 +853,17 @@ pub fn damaged_variants(
 fn announced_slice(kind: RKind, op: &ROp, stream: &mut Vec<u8>, g: &mut Rng) -> usize {
     match kind {
         RKind::Ip => {
+            // a stream that ends inside the IP header itself is compared as
+            // it is (the reader has to run out of data, like the slice)
+            let base = match stream.first().map(|b| (b >> 4, b & 0xf)) {
+                Some((4, ihl)) if ihl >= 5 => usize::from(ihl) * 4,
+                Some((4, _)) => 20,
+                Some((6, _)) => 40,
+                _ => 0,
+            };
+            if stream.len() < base {
+                return stream.len();
+            }
             let want = match stream.first().map(|b| b >> 4) {
                 Some(4) if stream.len() >= 4 => {
                     let hl = usize::from(stream[0] & 0xf) * 4;
@@ -881,7 +983,25 @@ pub fn run_c01(seed: u64, run: u64, stats: &mut Stats, inspect: bool) -> Vec<Vio
     // (maximum lengths) and spend them on more distinct streams
     let size = if inspect && cfg.bool() { 3 } else { pick_size(&mut cfg) };
     let chunk_seed = mix(&[rs, 4]);
-    let (op, base) = gen_reader_input(kind, &mut g, size, &mut cfg);
+    let (op, mut base) = gen_reader_input(kind, &mut g, size, &mut cfg);
+    if inspect && base.len() >= 2 {
+        // the few Miri runs walk through the typed ICMP messages
+        // deterministically instead of waiting for the generator to hit them
+        let round = (run / RKind::ALL.len() as u64) as usize;
+        match kind {
+            RKind::Icmp4 => {
+                let types = [13u8, 14, 0, 8, 3, 5, 11, 12];
+                base[0] = types[round % types.len()];
+                base[1] = 0;
+            }
+            RKind::Icmp6 => {
+                let types = [1u8, 2, 3, 4, 128, 129, 133, 134, 135, 136, 137, 130, 131, 132, 143];
+                base[0] = types[round % types.len()];
+                base[1] = 0;
+            }
+            _ => {}
+        }
+    }
     let variants = damaged_variants(&base, &mut cfg, &mut aux, kind, if inspect { 4 } else { 6 });
     let mut out = Vec::new();
     let mut evals = 0u64;
